@@ -89,6 +89,7 @@ inductive Ev where
   | wake (t : Int)
   | fin (mt0 mt1 : List Elt)
   | pass (id : Nat) (retry : Int) (dying : Bool) (ndel : Nat) (recs : String) (npar ntoo : Nat) (q0 q1 done : List Elt)
+  | done (id : Nat) (gone : Bool) (done : List Elt)   -- pass_do's pqdone part (Nq.SchedFail): message worked on (0 = none), info/<id> gone, pqdone after
   deriving BEq, Repr
 
 def SLEEP_FOREVER : Int := (Nq.Gen.SLEEP_FOREVER : Nat)
